@@ -315,7 +315,7 @@ func (vc *VC) evalBuiltin(s *State, call *ast.CallExpr, name string, want int) [
 			if len(call.Args) > 1 {
 				vc.eval(s, call.Args[1])
 			}
-			return []*Term{vc.allocRef(s, "chan")}
+			return []*Term{vc.allocRef(s, "chan", nil)}
 		}
 	case "new":
 		t := vc.typeOf(call.Args[0])
@@ -603,7 +603,7 @@ func (vc *VC) bindParam(s *State, o *types.Var, v *Term) {
 		return
 	}
 	if vc.boxed[o] {
-		ref := vc.allocRef(s, o.Name())
+		ref := vc.allocRef(s, o.Name(), typeID(o.Type()))
 		s.env[o] = ref
 		vc.storePtr(s, o.Type(), ref, v)
 		return
